@@ -36,8 +36,14 @@ THEOREMS = [
     "C04.parseRules_render_int",
     "C04.parseRules_render_comments",
     "C04.parseRules_render_nth",
+    "C04.cleanText_units",
+    "C04.cleanText_layout",
+    "C04.parsePreparedRule_layout",
+    "C04.parseRules_render_full",
+    "C04.parseRules_render_layout_comments",
+    "C04.ruleOf_mapW",
 ]
-LEAN_TARGETS = ["RreModel.C04.Theorems", "RreModel.C04.Theorems2", "RreModel.C04.Theorems3", "RreModel.C04.Theorems4", "RreModel.C04.Theorems5"]
+LEAN_TARGETS = ["RreModel.C04.Theorems", "RreModel.C04.Theorems2", "RreModel.C04.Theorems3", "RreModel.C04.Theorems4", "RreModel.C04.Theorems5", "RreModel.C04.Theorems6"]
 N = {"quick": 2300, "thorough": 40000}
 EXHAUSTIVE = {"quick": False, "thorough": False}
 RULE = ("cases = corpus (witness of every fixed defect and of every open finding) + every subset of the seven rule attributes in a "
@@ -67,7 +73,7 @@ RULE = ("cases = corpus (witness of every fixed defect and of every open finding
         "must pass) or a form hit by an open finding (wfdata, method, firstvar). every 10th case is from the family RF:<layout word>: the file is rendered by a Rust port of the Lean "
         "renderer `renderFile` of the whole-file theorems (one palette index per white-space slot: blanks / tabs / line breaks / comments), "
         "and the oracle re-renders the case in Lean from (layout word, abstract rules) and requires the text to be identical "
-        "(`render-agrees`; `rf_thm_hyp` = within the hypotheses of parseRules_render: one line per rule, no comments). The file is "
+        "(`render-agrees`; `rf_thm_hyp` = within the observable hypotheses of parseRules_render_full / parseRules_render_layout_comments: strip_comments of the text is renderFile of the same rules with every slot stripped, slots are white space, no line break inside a leaf / statement, first statement directly after the slot behind `then`; `rf_thm_oneline` = the former tag: one line per rule, no comments). The file is "
         "given to GRLParser::parse_rules and parse_with_modules and every rule text to parse_rule (real code); the three returned "
         "ASTs are printed canonically and (a) compared with the Lean model's prediction, (b) compared by the oracle with "
         "print(expected(abstract rule list carried by the case)). non-trivial = at least one rule and at least 3 condition nodes.")
@@ -115,7 +121,7 @@ LEVEL_NOTE = ("Whole files (Theorems3): splitRules_render / parseRule_render / p
               "— over the model's scanners for rule_split_regex, rule_regex, when_then_regex, the splitter returns one block per rule in source "
               "order and every rule comes back with its name, salience, every attribute (attributes_render: any order, any white space), its "
               "condition TREE and statement LIST as written, leaf parsers' results at the leaves; hypotheses: one line per rule, no comments, "
-              "no `}` / ` then ` outside literals (open: parseRules_render_full = line breaks, hence comments, INSIDE rules; comments between rules with arbitrary text: parseRules_render_comments). Leaves (Theorems4): "
+              "no `}` / ` then ` outside literals (comments between rules with arbitrary text: parseRules_render_comments). Any layout (Theorems6): cleanText_units / cleanText_layout — clean_text turns every white-space slot with a line break into one blank and leaves tokens and the other slots untouched; parsePreparedRule_layout / parseRules_render_full — whole files with line breaks in any slot (hypotheses: no line break inside a leaf / statement text, CodeOk also of the slot-normalised rules); parseRules_render_layout_comments — comments in any slot, given SC text (renderFile …) (SC.append / gap_sc build it); ruleOf_mapW — the expected rule does not depend on the layout. Leaves (Theorems4): "
               "parseSingleCondition_cmp_int / parseAction_set_int follow the leaf parsers on `Object.field op <i64>` / `field = <i64>` as written, "
               "parseRules_render_int = the property's sentence with nothing abstract for that sub-grammar; the other leaf forms are covered by the "
               "correspondence only. The renderer of these theorems (File.lean renderFile) is the one whose "
